@@ -323,6 +323,8 @@ class Ops:
             return TRUE if base == "Eq" else FALSE
         if base in ("Eq", "Ne") and a[0] == "agg" and b[0] == "agg" and a[1] == b[1] and a[2] != b[2]:
             return FALSE if base == "Eq" else TRUE
+        if base in ("Eq", "Ne") and a[0] == "agg" and b[0] == "agg" and a[1] == b[1] and a[2] == b[2] and not a[4] and not b[4]:
+            return TRUE if base == "Eq" else FALSE          # the same field-less variant of an enum that also has variants with fields
         if base in ("Eq", "Ne") and a[0] == "agg" and b[0] == "agg" and a[1] == b[1] and a[2] == b[2] and len(a[4]) == 1 and len(b[4]) == 1:
             return self.bin(base, a[4][0][1], b[4][0][1])      # same single-field variant (Some(x) == Some(y))
         if base in COMM and repr(b) < repr(a):
